@@ -1,7 +1,7 @@
 (* C17 — Negotiation waits are bounded by timeouts, also after restarts.
    Property theorems only.
 
-   [cancelled m m' res es] (Proofs/C17.v): the entry point returned "done" without error, m' is
+   [cancelled terminal m m' res es] (Model/C17Corr.v): the entry point returned "done" without error, m' is
    in a finished state, the effects es contain a cancel message to the swap's peer, the last
    durable record is m', and es consists of store writes and that cancel message only. *)
 From Coq Require Import String ZArith Bool List.
